@@ -1,6 +1,7 @@
 import Plotink.Proofs.C12Core
 import Plotink.Proofs.C12Parse
 import Plotink.Proofs.C12Gen
+import Plotink.Proofs.C12GenAttr
 
 /-! # C12 — length parsing and unit conversion are mutually consistent and follow SVG units
 
@@ -188,8 +189,8 @@ example : parseLength (some ['1','2','e','m',' ']) = none ∧ getLength (some ['
 
 /-! ## Statements about the SOURCE-REGENERATED code
 
-`Gen.parseLengthWithUnits`, `Gen.unitsToUserUnits`, `Gen.userUnitToUnits` are regenerated from
-`plotink/plot_utils.py` by the translator on every run.  A Python `str` is `Py.Val.str s` (`s : String`,
+`Gen.parseLengthWithUnits`, `Gen.unitsToUserUnits`, `Gen.userUnitToUnits`, `Gen.getLength`, `Gen.getLengthInches` are
+regenerated from `plotink/plot_utils.py` by the translator on every run.  A Python `str` is `Py.Val.str s` (`s : String`,
 `Py.ofL l = .str (String.ofList l)`); numbers are `int`s or `float`s (`Py.IsNum v q`).  The parser theorem holds
 for every rounding mode; the table theorems are in exact arithmetic (`Rounding.exact`) with the float literals
 of the source as the doubles they denote (`C12.genFactor`), which is why the SVG factor appears up to `2^-52`.
@@ -276,6 +277,74 @@ theorem C12_gen_reject (R : Rounding) (amb : Nat) :
       u ∉ [[], ['p','x'], ['i','n'], ['m','m'], ['c','m'], ['p','t'], ['p','c'], ['Q'], ['q'], ['%']] →
       Gen.userUnitToUnits R amb dv (Py.ofL u) = .none_) :=
   ⟨fun ref => (uu_none R amb ref).1, fun s ref h => (uu_none R amb ref).2 s h, (back_none R amb).1, (back_none R amb).2⟩
+
+/-! ### the document-attribute readers, regenerated
+
+`Gen.getLength R amb attr default` / `Gen.getLengthInches R amb attr` are regenerated from `plot_utils.getLength` /
+`getLengthInches`; the translator replaces the opaque lookup `altself.document.getroot().get(name)` by the parameter
+`attr` — the attribute text `.str s`, or `.none_` for an absent attribute (recorded as `abstracted` in
+`Gen/report.json`; that the document returns that text is outside the model).  Proofs: `Proofs/C12GenAttr.lean`. -/
+
+/-- `C12_tables_getLength` for the regenerated code: value × factor whatever the default, the factor being the SVG
+factor up to the representation error of the source's float literals (relative `2^-52`) -/
+theorem C12_gen_tables_getLength (amb : Nat) (s : String) (dv : Py.Val) (v f : Rat) (u : List Char)
+    (hp : parseLength (some s.toList) = some (.fin v, u)) (hf : svgFactor u = some f) :
+    ∃ g, genBackFactor u = some g ∧ |g - f| ≤ f / 2 ^ 52 ∧
+      Gen.getLength Rounding.exact amb (.str s) dv = .flt (v * g) := by
+  obtain ⟨g, h1, h2⟩ := genBackFactor_close u f hf
+  exact ⟨g, h1, h2, len_tables amb s dv v g u hp h1⟩
+
+/-- `C12_tables_getLengthInches` for the regenerated code: value × that same factor ÷ 96 -/
+theorem C12_gen_tables_getLengthInches (amb : Nat) (s : String) (v f : Rat) (u : List Char)
+    (hp : parseLength (some s.toList) = some (.fin v, u)) (hf : svgFactor u = some f) :
+    ∃ g, genBackFactor u = some g ∧ |g - f| ≤ f / 2 ^ 52 ∧
+      Gen.getLengthInches Rounding.exact amb (.str s) = .flt (v * g / 96) := by
+  obtain ⟨g, h1, h2⟩ := genBackFactor_close u f hf
+  exact ⟨g, h1, h2, inch_tables amb s v g u hp h1⟩
+
+/-- `C12_attr` for the regenerated readers (exact arithmetic), for every attribute text the parser reads as `v` with
+unit `u`: pixels = 96 × inches *exactly* on every unit both accept, whatever the default; a percentage is taken of the
+supplied default — **every** number, 0 included — by `getLength` and by `unitsToUserUnits` alike, and is `None` in
+inches; `getLength` and `unitsToUserUnits` return the same value on the same text and reference for every unit but `Q`,
+where the source writes the factor as `40.0 * 2.54` in one and `101.6` in the other (relative deviation ≤ `2^-52`) -/
+theorem C12_gen_attr (amb : Nat) (s : String) (v : Rat) (u : List Char)
+    (hp : parseLength (some s.toList) = some (.fin v, u)) :
+    (u ≠ ['%'] → ∀ dv : Py.Val, ∃ px inch, Gen.getLength Rounding.exact amb (.str s) dv = .flt px ∧
+        Gen.getLengthInches Rounding.exact amb (.str s) = .flt inch ∧ px = 96 * inch) ∧
+    (u = ['%'] → ∀ (rv : Py.Val) (r : Rat), Py.IsNum rv r →
+        Gen.getLength Rounding.exact amb (.str s) rv = .flt (r * v / 100) ∧
+        Gen.unitsToUserUnits Rounding.exact amb (.str s) rv = .flt (v * r / 100) ∧
+        Gen.getLengthInches Rounding.exact amb (.str s) = .none_) ∧
+    (u ≠ ['Q'] → ∀ (rv : Py.Val) (r : Rat), Py.IsNum rv r →
+        Gen.getLength Rounding.exact amb (.str s) rv = Gen.unitsToUserUnits Rounding.exact amb (.str s) rv) ∧
+    (u = ['Q'] → ∀ rv : Py.Val, ∃ a b, Gen.getLength Rounding.exact amb (.str s) rv = .flt a ∧
+        Gen.unitsToUserUnits Rounding.exact amb (.str s) rv = .flt b ∧ |a - b| ≤ |b| / 2 ^ 52) := by
+  refine ⟨fun hu dv => gen_attr_px_inch amb s dv v u hp hu, ?_, fun hQ rv r hr => len_eq_uu amb s v u hp hQ rv r hr, ?_⟩
+  · rintro rfl rv r hr
+    exact ⟨len_percent amb s v hp rv r hr, (uu_percent amb s v hp).2 rv r hr, inch_percent _ amb s v hp⟩
+  · rintro rfl rv
+    exact len_uu_Q amb s v hp rv
+
+/-- absent attribute (`None`), empty text, and text the parser rejects (every rounding mode): `getLength` returns
+`float(default)` for the first two and `None` for rejected text; `getLengthInches` returns `None` in all three -/
+theorem C12_gen_attr_absent (R : Rounding) (amb : Nat) :
+    (∀ dv, Gen.getLength R amb .none_ dv = Py.float_ R dv ∧ Gen.getLength R amb (.str "") dv = Py.float_ R dv) ∧
+    Gen.getLengthInches R amb .none_ = .none_ ∧ Gen.getLengthInches R amb (.str "") = .none_ ∧
+    (∀ (s : String) dv, s ≠ "" → parseLength (some s.toList) = none → Gen.getLength R amb (.str s) dv = .none_) ∧
+    (∀ s : String, parseLength (some s.toList) = none → Gen.getLengthInches R amb (.str s) = .none_) :=
+  ⟨fun dv => len_absent R amb dv, (inch_absent R amb).1, (inch_absent R amb).2,
+    fun s dv hs h => len_reject R amb s dv hs h, fun s h => inch_reject R amb s h⟩
+
+/-- non-vacuity: `"0"` reads as the value 0 in px (so `getLength` returns `0.0`, not `None`), `"50%"` as 50 percent -/
+example : Gen.getLength Rounding.exact 53 (.str "0") (.int 321) = .flt 0 ∧
+    Gen.getLengthInches Rounding.exact 53 (.str "0") = .flt 0 := by
+  have hp : parseLength (some ("0" : String).toList) = some (.fin 0, ['p', 'x']) := by decide +kernel
+  refine ⟨?_, ?_⟩
+  · rw [len_tables 53 "0" _ 0 1 _ hp (by decide +kernel)]; norm_num
+  · rw [inch_tables 53 "0" 0 1 _ hp (by decide +kernel)]; norm_num
+example : Gen.getLength Rounding.exact 53 (.str "50%") (.int 0) = .flt 0 := by
+  have hp : parseLength (some ("50%" : String).toList) = some (.fin 50, ['%']) := by decide +kernel
+  rw [((C12_gen_attr 53 "50%" 50 ['%'] hp).2.1 rfl (.int 0) 0 (Or.inr ⟨0, rfl, by norm_num⟩)).1]; norm_num
 
 /-- non-vacuity: `" 25.4mm"` meets the hypotheses; the regenerated converter returns `25.4 × 96 / (the double 25.4)` -/
 example : parseLength (some (" 25.4mm" : String).toList) = some (.fin (127 / 5), ['m', 'm']) ∧
